@@ -258,6 +258,8 @@ pub fn process_case_line(line: &str) -> Value {
                 }
                 None => match guarded(|| extract_facts(ts)) {
                     Ok(Ok(f)) => with_outcome("ok", f),
+                    // accepted, but the token stream is not a syntactically valid Rust file (e.g. a keyword used as an identifier)
+                    Ok(Err(e)) if e.contains("does not parse as a syn::File") => json!({"outcome": "unparsable", "message": e}),
                     Ok(Err(e)) => json!({"outcome": "harness_error", "message": format!("extract_facts: {e}")}),
                     Err(p) => json!({"outcome": "harness_error", "message": format!("extract_facts panicked: {p}")}),
                 },
